@@ -296,6 +296,14 @@ def generate(rng: random.Random, tier: str) -> dict:
         cfg.update(axis="YX", ns=0, level=None, noise=True, nodata=None if cfg["nodata"] == "nan" else cfg["nodata"], blocksize=[256], chunks=[512, 512], irregular_chunks=None, big_endian_input=False,
                    sink=rng.choice(["s3", "s3-cluster"]), place=None, dst_exists=False, s3_min_write="true", spill_sz=rng.choice([5 << 20, 6 << 20]), wpc=rng.choice([2, 4]), gbox="std", pressure=False)
         cfg["dask"].update(workers=rng.choice([1, 2]), trace="sinks", rendezvous=False, recompute=0.0, stall=0.0)
+    # domain: a nodata value the sample type can hold (the special runs above may have replaced the dtype)
+    nd, dt_ = cfg["nodata"], np.dtype(cfg["dtype"])
+    if nd == "nan" and dt_.kind != "f":
+        cfg["nodata"] = None
+    elif isinstance(nd, int) and dt_.kind in "ui" and not (np.iinfo(dt_).min <= nd <= np.iinfo(dt_).max):
+        cfg["nodata"] = 7
+    elif isinstance(nd, int) and dt_.kind == "b" and nd not in (0, 1):
+        cfg["nodata"] = 1
     return {"config": cfg, "workload": {"shape": [ny, nx]}}
 
 
